@@ -13,7 +13,7 @@ from vlib import capture, env, workload
 
 ASSUMPTIONS = [
     "grown series recomputed independently from the inputs (C08 closed form without waste): annual x seasonality x ratio; with relocation the ratio is raised to the configured exponent when <= 1 from month (harvest duration + rotation delay) on; cropland expansion multiplies the relocated series by the documented linear ramp",
-    "greenhouse fraction read from the Greenhouses object of the same run (captured by wrapping get_greenhouse_area)",
+    "greenhouse fraction = greenhouse area built (returned by get_greenhouse_area, captured by wrapping) / (INITIAL_GLOBAL_CROP_AREA x INITIAL_CROP_AREA_FRACTION), zero for a country without cropland; the object's own fraction must equal it",
     "tolerance 1e-9 relative to the largest monthly value; quantisation probed by scaling the crop baseline by 1e-6 and 1e-3 (output must scale exactly, 1e-12)",
 ]
 REL = 1e-9
@@ -43,7 +43,8 @@ def gen_cases(tier, seed):
     rnd = random.Random(900 + seed)
     isos = workload.all_isos()
     if tier == "quick":
-        sel = workload.rotate([i for i in workload.HOSTILE if i in isos], seed * 2)[:14] + rnd.sample(isos, 16)
+        sel = workload.zero_rows(seed, 4) + workload.rotate([i for i in workload.HOSTILE if i in isos], seed * 2)[:14] + rnd.sample(isos, 16)
+        sel = list(dict.fromkeys(sel))
     else:
         sel = isos
     cases = []
@@ -117,7 +118,18 @@ def check_one(ck, inp, prod, ghobj, ghar, N, iso, tag, data):
     """production = grown x (1 - greenhouse fraction) x (1 - distribution waste); greenhouse area schedule."""
     plain, eff = ref_grown(inp, N, iso)
     dist = 1 - inp["WASTE_DISTRIBUTION"]["CROPS"] / 100.0
-    frac = np.asarray(ghobj.greenhouse_fraction_area, float) if ghobj is not None else np.zeros(N)
+    # the share of cropland under greenhouses, from the greenhouse area actually built (not from the object's own fraction):
+    # area / (global cropland x the country's share of it); a country without cropland has no greenhouses and loses nothing
+    total_area = float(inp["INITIAL_GLOBAL_CROP_AREA"]) * float(inp["INITIAL_CROP_AREA_FRACTION"])
+    if ghobj is not None and ghar is not None and len(ghar) == N:
+        frac = np.asarray(ghar, float) / total_area if total_area > 0 else np.zeros(N)
+        own = np.asarray(ghobj.greenhouse_fraction_area, float)
+        if own.shape != frac.shape or np.abs(own - frac).max() > 1e-12:
+            m = int(np.abs(own - frac).argmax()) if own.shape == frac.shape else 0
+            ck.bad("greenhouse_fraction_differs_from_area_built", "%s month %d: fraction taken from outdoor crops %.8g, greenhouse area built / cropland = %.8g (cropland %.6g ha)" % (
+                tag, m, own[m] if own.shape == frac.shape else float("nan"), frac[m], total_area), scenario=tag, **data)
+    else:
+        frac = np.asarray(ghobj.greenhouse_fraction_area, float) if ghobj is not None else np.zeros(N)
     want = eff * (1 - frac) * dist
     got = np.asarray(prod, float)
     sc = max(1e-300, float(np.abs(want).max()), float(np.abs(got).max()), 1e-9 * inp["BASELINE_CROP_KCALS"] * 4e6 / 1e9 / 12)
